@@ -46,13 +46,57 @@ func run(c *vf.Ctx) {
 	c.Rule("PBKDF2: hash{sha1,sha224,sha256,sha384,sha512} x iter{1,2,3,4,5,1000} x every keyLen 1..3*hLen+2 (iter<=5; boundary set at 1000) x password len{0,1,B-1,B,B+1,200} x salt len{0,1,8,B,200} x value classes; " +
 		"HKDF: same hashes x secret len{0,1,hLen,B,B+1,200} x salt{nil,empty,1,hLen,B,B+1} x info len{0,1,10,200}, Extract/Expand/New compared over the whole 255*hLen stream; " +
 		"reader: ALL sequences of Read(n), n in {0,1,hLen-1,hLen,hLen+1,2hLen+1,254hLen-1,254hLen,254hLen+1,255hLen-1,255hLen,255hLen+1}, depth 4 (thorough 5), no state merging, for sha1/sha256/sha512 x {Expand,New}, each followed by a drain epilogue; " +
+		"hardening: (A) pbkdf2.Key / hkdf.Extract / Expand / New receive password, salt, secret, PRK and info as private copies in sentinel-framed buffers (spare capacity behind the slice or cap == len, alternating) that must be intact after the call; password, salt, secret and PRK are wiped as soon as the call returns (info is kept by reference by the reader - unchanged behaviour - and only checked for writes); " +
+		"(C/E) for sha1/sha256/sha512: HKDF secret, salt, info, PRK and PBKDF2 password, salt of length 2^k+{-1,0,1,B-1,B,B+1}, k=7..22 (PRK/salt above 2^16: 2 deltas), PBKDF2 key lengths {255,256,257,65535,65536,65537}*hLen+{-1,0,1} (4-octet block index), iterations 255..257; " +
+		"(A/D) two readers (+ a third created afterwards) built from the same info (and salt) slice x {Expand,New} x {spare capacity, cap == len}: all 6^4 schedules of {A,B}.Read{1,hLen,hLen+1}, each reader must continue its own stream; " +
 		"non-trivial = distinct (hash,keyLen>hLen) PBKDF2 shapes, distinct HKDF shapes, and distinct reader histories that contain a failing Read or cross a block boundary with a partly consumed block; state = (hash, bytes consumed) of the position model")
 	c.Assume("crypto/hmac, crypto/sha1, crypto/sha256, crypto/sha512 are correct (the reference models are built on them; /repo delegates to crypto/pbkdf2 and crypto/hkdf, which are not used by the models)")
 	c.Assume("values outside the value alphabet (fixed classes + seeded classes) are not enumerated")
 
 	pbkdf2Grid(c)
 	hkdfGrid(c)
+	longInputs(c)
+	interleavedReaders(c)
 	readerSequences(c)
+}
+
+// ---------------------------------------------------------------- hardening helpers
+
+// guard places a private copy of b in a frame: 8 sentinel bytes in front, 24 behind. With spare
+// the returned slice's capacity extends over the trailing sentinels (an append inside the
+// package would write into caller memory), otherwise cap == len. nil stays nil.
+func guard(b []byte, spare bool) (frame, s []byte) {
+	if b == nil {
+		return nil, nil
+	}
+	frame = bytes.Repeat([]byte{0xA5}, 8+len(b)+24)
+	copy(frame[8:], b)
+	if spare {
+		return frame, frame[8 : 8+len(b)]
+	}
+	return frame, frame[8 : 8+len(b) : 8+len(b)]
+}
+
+func intact(frame, orig []byte) bool {
+	if orig == nil {
+		return frame == nil
+	}
+	for i, v := range frame {
+		if i >= 8 && i < 8+len(orig) {
+			if v != orig[i-8] {
+				return false
+			}
+		} else if v != 0xA5 {
+			return false
+		}
+	}
+	return true
+}
+
+func wipe(frame []byte) {
+	for i := range frame {
+		frame[i] ^= 0xFF
+	}
 }
 
 // ---------------------------------------------------------------- PBKDF2
@@ -106,11 +150,19 @@ func pbkdf2Grid(c *vf.Ctx) {
 		}
 		for v := 0; v < nv; v++ {
 			pw, salt := pws[v], salts[(v+1)%len(salts)]
-			pwc, sc := append([]byte(nil), pw...), append([]byte(nil), salt...)
+			pwc, sc := pw, salt
+			// hardening A: private, sentinel-framed copies (spare capacity alternating), intact after the call, then wiped
+			fpw, gpw := guard(pw, (i+v)%2 == 0)
+			fsalt, gsalt := guard(salt, (i+v)%2 == 1 || g.klen%3 == 0)
 			var got []byte
-			p, val, _ := vf.Protect(func() { got = pbkdf2.Key(pw, salt, g.iter, g.klen, g.h.new) })
+			p, val, _ := vf.Protect(func() { got = pbkdf2.Key(gpw, gsalt, g.iter, g.klen, g.h.new) })
 			c.Eval(1)
 			d := map[string]any{"hash": g.h.name, "iter": g.iter, "keyLen": g.klen, "pwLen": g.pl, "saltLen": g.sl, "class": v}
+			if !p && (!intact(fpw, pw) || !intact(fsalt, salt)) {
+				c.Violation("pbkdf2.Key writes to the caller's password/salt buffer or its spare capacity", d)
+			}
+			wipe(fpw)
+			wipe(fsalt)
 			if p {
 				d["panic"] = fmt.Sprint(val)
 				c.Violation("pbkdf2.Key panics on valid arguments", d)
@@ -175,12 +227,19 @@ func hkdfGrid(c *vf.Ctx) {
 			secC, saltC, infoC := append([]byte(nil), secret...), append([]byte(nil), salt...), append([]byte(nil), info...)
 			wantPRK := kdfref.HKDFExtract(g.h.new, secC, saltC)
 			var prk []byte
-			if p, val, _ := vf.Protect(func() { prk = hkdf.Extract(g.h.new, secret, salt) }); p {
+			fsec, gsec := guard(secret, v%2 == 0)
+			fsalt, gsalt := guard(salt, v%2 == 1)
+			if p, val, _ := vf.Protect(func() { prk = hkdf.Extract(g.h.new, gsec, gsalt) }); p {
 				d["panic"] = fmt.Sprint(val)
 				c.Violation("hkdf.Extract panics", d)
 				continue
 			}
 			c.Eval(1)
+			if !intact(fsec, secret) || !intact(fsalt, salt) {
+				c.Violation("hkdf.Extract writes to the caller's secret/salt buffer or its spare capacity", d)
+			}
+			wipe(fsec) // the PRK returned must not depend on the caller's buffers any more
+			wipe(fsalt)
 			if !bytes.Equal(prk, wantPRK) {
 				d["got"], d["want"] = vf.Hex8(prk), vf.Hex8(wantPRK)
 				c.Violation("hkdf.Extract != RFC 5869 model", d)
@@ -191,18 +250,38 @@ func hkdfGrid(c *vf.Ctx) {
 			for variant := 0; variant < 2; variant++ {
 				var r io.Reader
 				name := "hkdf.Expand"
+				// hardening A: secret, salt and PRK are private sentinel-framed copies that the
+				// caller wipes as soon as the constructor returns; info (which the reader
+				// keeps by reference - unchanged behaviour, not wiped) must never be written to,
+				// neither inside its length nor in its spare capacity.
+				sp := (v+variant)%2 == 0
+				fprk, gprk := guard(prk, sp)
+				fsec, gsec := guard(secret, sp)
+				fsalt, gsalt := guard(salt, !sp)
+				finfo, ginfo := guard(info, v%3 != 2)
 				if p, val, _ := vf.Protect(func() {
 					if variant == 0 {
-						r = hkdf.Expand(g.h.new, prk, info)
+						r = hkdf.Expand(g.h.new, gprk, ginfo)
 					} else {
 						name = "hkdf.New"
-						r = hkdf.New(g.h.new, secret, salt, info)
+						r = hkdf.New(g.h.new, gsec, gsalt, ginfo)
 					}
 				}); p {
 					d["panic"] = fmt.Sprint(val)
 					c.Violation(name+" panics", d)
 					continue
 				}
+				if !intact(fprk, prk) || !intact(fsec, secret) || !intact(fsalt, salt) {
+					c.Violation(name+" writes to the caller's key/secret/salt buffer or its spare capacity", d)
+				}
+				wipe(fprk)
+				wipe(fsec)
+				wipe(fsalt)
+				defer func(name string) {
+					if !intact(finfo, info) {
+						c.Violation(name+" reader writes to the caller's info buffer or its spare capacity", d)
+					}
+				}(name)
 				got := make([]byte, limit)
 				var n int
 				var err error
@@ -391,4 +470,222 @@ func runHistory(c *vf.Ctx, h hdef, vname string, mk func() io.Reader, stream []b
 	if sawFail && sawPartialCross && hist[0] == h.size+1 && c.WantSample() {
 		c.Sample(map[string]any{"part": "reader", "reader": label, "history_read_sizes": hist, "final_pos_before_drain": pos})
 	}
+}
+
+// ---------------------------------------------------------------- long inputs (hardening C/E)
+
+// longInputs: secret, salt, info, PRK, password and salt lengths 2^k + {-1,0,1,B-1,B,B+1} (B = hash
+// block) for k up to 22, and PBKDF2 key lengths whose 4-octet block index passes 255/256 and
+// 65535/65536. Each against the model (for long info only the first blocks of the stream).
+func longInputs(c *vf.Ctx) {
+	kmax := 22
+	src := vf.DetBytes(fmt.Sprintf("%d|kdf-long", c.Seed), 1<<uint(kmax)+300)
+	shortSrc := c.Bytes("kdf-long-short", 0, 24)
+	type job struct {
+		h     hdef
+		what  string
+		n     int
+		extra int
+	}
+	var jobs []job
+	for _, h := range hashes[:3] {
+		for k := 7; k <= kmax; k++ {
+			for _, d := range []int{-1, 0, 1, h.block - 1, h.block, h.block + 1} {
+				n := 1<<uint(k) + d
+				for _, what := range []string{"hkdf secret", "hkdf salt", "hkdf info", "hkdf prk", "pbkdf2 password", "pbkdf2 salt"} {
+					if k > 16 && (what == "hkdf prk" || what == "hkdf salt") && d != 0 && d != h.block+1 {
+						continue // HMAC key longer than a block: hashed once; two deltas suffice above 64 KiB
+					}
+					jobs = append(jobs, job{h, what, n, 0})
+				}
+			}
+		}
+		// PBKDF2 block index INT(i): key lengths around i = 255/256/257 and 65535/65536/65537
+		for _, blocks := range []int{255, 256, 257, 65535, 65536, 65537} {
+			for _, d := range []int{-1, 0, 1} {
+				jobs = append(jobs, job{h, "pbkdf2 keyLen", blocks*h.size + d, 0})
+			}
+		}
+		for _, it := range []int{255, 256, 257} {
+			jobs = append(jobs, job{h, "pbkdf2 iterations", 2*h.size + 1, it})
+		}
+	}
+	c.Set("long_input_jobs", len(jobs))
+	c.ParallelFor(len(jobs), func(i int) {
+		j := jobs[i]
+		d := map[string]any{"hash": j.h.name, "long": j.what, "len": j.n}
+		long := src[i%7 : i%7+j.n]
+		short := append(make([]byte, 0, 24), shortSrc...) // private to this job, cap == len
+		flong, glong := guard(long, i%2 == 0)
+		var got, want []byte
+		var p bool
+		var val any
+		switch j.what {
+		case "hkdf secret", "hkdf salt":
+			secret, salt := glong, short
+			ms, mt := long, short
+			if j.what == "hkdf salt" {
+				secret, salt, ms, mt = short, glong, short, long
+			}
+			p, val, _ = vf.Protect(func() {
+				prk := hkdf.Extract(j.h.new, secret, salt)
+				r := hkdf.New(j.h.new, secret, salt, short)
+				wipe(flong) // the caller wipes the long buffer right after New
+				got = make([]byte, 2*j.h.size+1)
+				if _, err := io.ReadFull(r, got); err != nil {
+					got = nil
+				}
+				got = append(prk, got...)
+				wipe(flong)
+			})
+			wprk := kdfref.HKDFExtract(j.h.new, ms, mt)
+			want = append(append([]byte(nil), wprk...), kdfref.HKDFBlocks(j.h.new, wprk, short, 3)[:2*j.h.size+1]...)
+		case "hkdf prk":
+			p, val, _ = vf.Protect(func() {
+				r := hkdf.Expand(j.h.new, glong, short)
+				wipe(flong)
+				got = make([]byte, 2*j.h.size+1)
+				if _, err := io.ReadFull(r, got); err != nil {
+					got = nil
+				}
+				wipe(flong)
+			})
+			want = kdfref.HKDFBlocks(j.h.new, long, short, 3)[:2*j.h.size+1]
+		case "hkdf info":
+			p, val, _ = vf.Protect(func() {
+				r := hkdf.Expand(j.h.new, short, glong)
+				got = make([]byte, 2*j.h.size+1)
+				// three reads: a part of T(1), across T(1)/T(2), into T(3)
+				for _, seg := range [][2]int{{0, 5}, {5, j.h.size + 2}, {j.h.size + 2, 2*j.h.size + 1}} {
+					if n, err := r.Read(got[seg[0]:seg[1]]); err != nil || n != seg[1]-seg[0] {
+						got = nil
+						return
+					}
+				}
+			})
+			want = kdfref.HKDFBlocks(j.h.new, short, long, 3)[:2*j.h.size+1]
+		case "pbkdf2 password":
+			p, val, _ = vf.Protect(func() { got = pbkdf2.Key(glong, short, 2, j.h.size+1, j.h.new) })
+			want = kdfref.PBKDF2(j.h.new, long, short, 2, j.h.size+1)
+		case "pbkdf2 salt":
+			p, val, _ = vf.Protect(func() { got = pbkdf2.Key(short, glong, 2, j.h.size+1, j.h.new) })
+			want = kdfref.PBKDF2(j.h.new, short, long, 2, j.h.size+1)
+		case "pbkdf2 keyLen":
+			long, flong = nil, nil
+			p, val, _ = vf.Protect(func() { got = pbkdf2.Key(short, short[:8], 1, j.n, j.h.new) })
+			want = kdfref.PBKDF2(j.h.new, short, short[:8], 1, j.n)
+		case "pbkdf2 iterations":
+			long, flong = nil, nil
+			d["iter"] = j.extra
+			p, val, _ = vf.Protect(func() { got = pbkdf2.Key(short, short[:8], j.extra, j.n, j.h.new) })
+			want = kdfref.PBKDF2(j.h.new, short, short[:8], j.extra, j.n)
+		}
+		c.Eval(1)
+		switch {
+		case p:
+			d["panic"] = fmt.Sprint(val)
+			c.Violation("KDF panics on a long input ["+j.what+"]", d)
+		case !intact(flong, long):
+			c.Violation("KDF writes to the caller's buffer or its spare capacity [long "+j.what+"]", d)
+		case !bytes.Equal(got, want):
+			k := 0
+			for k < len(got) && k < len(want) && got[k] == want[k] {
+				k++
+			}
+			d["first_diff_at"], d["got_len"], d["want_len"] = k, len(got), len(want)
+			c.Violation("KDF output != RFC model [long "+j.what+"]", d)
+		}
+		c.Nontrivial(fmt.Sprintf("long/%s/%s/%d/%d", j.h.name, j.what, j.n, j.extra))
+	})
+	c.Outcome("long inputs checked")
+}
+
+// ---------------------------------------------------------------- interleaved readers (hardening A/D)
+
+// interleavedReaders: two readers A and B are built from the SAME info slice (with spare capacity or
+// with cap == len; B with another key) and, for New, the same salt slice; their secrets/keys are
+// wiped after construction. Every schedule of 4 reads over {A,B} x {1, HashLen, HashLen+1} bytes
+// must give each reader the next bytes of its own RFC 5869 stream, a third reader C created from
+// the same info slice after the schedule must start at T(1), and info must still be intact.
+func interleavedReaders(c *vf.Ctx) {
+	depth := 4
+	for hi, h := range hashes[:3] {
+		L := h.size
+		sizes := []int{1, L, L + 1}
+		nops := 2 * len(sizes)
+		total := 1
+		for i := 0; i < depth; i++ {
+			total *= nops
+		}
+		info := c.Bytes("il-info", hi, 13)
+		salt := c.Bytes("il-salt", hi, 16)
+		secA, secB := c.Bytes("il-secret-a", hi, 32), c.Bytes("il-secret-b", hi, 40)
+		prkA, prkB := kdfref.HKDFExtract(h.new, secA, salt), kdfref.HKDFExtract(h.new, secB, salt)
+		streams := [2][]byte{kdfref.HKDFBlocks(h.new, prkA, info, depth+3), kdfref.HKDFBlocks(h.new, prkB, info, depth+3)}
+		for variant := 0; variant < 2; variant++ {
+			for _, spare := range []bool{true, false} {
+				vname := []string{"Expand", "New"}[variant]
+				label := fmt.Sprintf("%s/%s/info spare capacity=%v", h.name, vname, spare)
+				c.ParallelFor(total, func(idx int) {
+					finfo, ginfo := guard(info, spare)
+					fsalt, gsalt := guard(salt, spare)
+					mk := func(sec, prk []byte) io.Reader {
+						fs, gs := guard(sec, !spare)
+						fp, gp := guard(prk, !spare)
+						var r io.Reader
+						if variant == 0 {
+							r = hkdf.Expand(h.new, gp, ginfo)
+						} else {
+							r = hkdf.New(h.new, gs, gsalt, ginfo)
+						}
+						wipe(fs)
+						wipe(fp)
+						return r
+					}
+					var hist []string
+					d := map[string]any{"readers": label}
+					pan, val, _ := vf.Protect(func() {
+						rd := [2]io.Reader{mk(secA, prkA), mk(secB, prkB)}
+						pos := [2]int{}
+						for i, x := depth-1, idx; i >= 0; i-- {
+							op := x % nops
+							x /= nops
+							who, n := op/len(sizes), sizes[op%len(sizes)]
+							hist = append(hist, fmt.Sprintf("%c.Read(%d)", 'A'+who, n))
+							buf := bytes.Repeat([]byte{0x5A}, n)
+							got, err := rd[who].Read(buf)
+							c.Transition(1)
+							if err != nil || got != n || !bytes.Equal(buf, streams[who][pos[who]:pos[who]+n]) {
+								d["history"], d["failing_step"] = hist, len(hist)-1
+								c.Violation("hkdf readers that share caller slices disturb each other (Read is not the next bytes of the reader's own RFC 5869 stream)", d)
+								return
+							}
+							pos[who] += n
+							wipe(buf)
+						}
+						// a reader created afterwards from the same info slice starts at T(1)
+						r3 := mk(secA, prkA)
+						buf := make([]byte, L+1)
+						if _, err := io.ReadFull(r3, buf); err != nil || !bytes.Equal(buf, streams[0][:L+1]) {
+							d["history"] = hist
+							c.Violation("hkdf reader created from an info slice that earlier readers used does not produce the RFC 5869 stream", d)
+						}
+					})
+					c.Eval(1)
+					if pan {
+						d["panic"], d["history"] = fmt.Sprint(val), hist
+						c.Violation("hkdf panics with interleaved readers", d)
+						return
+					}
+					if !intact(finfo, info) || (variant == 1 && !intact(fsalt, salt)) {
+						d["history"] = hist
+						c.Violation("hkdf reader writes to the caller's info/salt buffer or its spare capacity", d)
+					}
+					c.TraceValidated(1)
+					c.Nontrivial(fmt.Sprintf("il/%s/%d", label, idx))
+				})
+			}
+		}
+	}
+	c.Outcome("interleaved readers checked")
 }
